@@ -127,12 +127,14 @@ def forced_cases(mm, root, seed, containers=(0.0, 0.6)):
             if ra["kind"] == "array":
                 arr_alts.append((ai, ra["element"]))
         if len(arr_alts) >= 2:
-            evs = {ai: _elem_variants(mm, et, (seed, root.label, sidx, ai, "x")) for ai, et in arr_alts}
+            # several draws per alternative: inner alternatives of the element shapes are random
+            evs = {ai: [v for x in range(4) for v in _elem_variants(mm, et, (seed, root.label, sidx, ai, "x", x))] for ai, et in arr_alts}
             for ai, eti in arr_alts:
                 for aj, etj in arr_alts:
                     if ai == aj:
                         continue
-                    both = [(lab, sub) for lab, sub in evs[ai] + evs[aj] if mm.valid(to_json(sub), eti) and mm.valid(to_json(sub), etj)]
+                    # (element trees are typed: only shapes generated FOR alternative j can stand in its array)
+                    both = [(lab, sub) for lab, sub in evs[aj] if mm.valid(to_json(sub), eti)]
                     only_j = [(lab, sub) for lab, sub in evs[aj] if not mm.valid(to_json(sub), eti)]
                     for (la, a) in both[:2]:
                         for (lb, b) in only_j[:3]:
